@@ -102,4 +102,195 @@ theorem uil_eq (cfg : Cfg) (height time : Nat) (ir : Option (List (Nat × Nat)))
   unfold updateInscriptionLocation uilStep
   exact rfl
 
+
+/-! ### rune-side frame of the inscription updater -/
+
+/-- events without a txid field = inscription events -/
+def InsOnly (evs : List Event) : Prop := ∀ e ∈ evs, evTxid e = none
+
+/-- `b` has the rune tables of `a` -/
+def RSame (a b : State) : Prop := b.runeEntries = a.runeEntries ∧ b.balances = a.balances
+
+theorem RSame.refl (a : State) : RSame a a := ⟨rfl, rfl⟩
+theorem RSame.trans {a b c : State} (h1 : RSame a b) (h2 : RSame b c) : RSame a c :=
+  ⟨h2.1.trans h1.1, h2.2.trans h1.2⟩
+
+theorem linkParents_rsame (seq : Nat) (ps : List InscriptionId) (st : State) (ids : List InscriptionId) (seqs : List Nat)
+    (r : State × List InscriptionId × List Nat) (h : linkParents seq ps st ids seqs = .ok r) : RSame st r.1 := by
+  induction ps generalizing st ids seqs with
+  | nil => simp [linkParents] at h; subst h; exact RSame.refl _
+  | cons p rest ih =>
+    simp only [linkParents] at h
+    split at h
+    · exact ih _ _ _ h
+    · split at h
+      · simp at h
+      · have := ih _ _ _ h
+        refine RSame.trans ?_ this
+        constructor <;> (split <;> rfl)
+
+theorem uilStep_rsame (height time : Nat) (ir : Option (List (Nat × Nat))) (fl : Flotsam) (sp : SatPoint)
+    (opr : Bool) (ls : LocState) (r : Bool × Nat × State × InsCtx)
+    (hr : uilStep height time ir fl sp opr ls = .ok r) :
+    RSame ls.st r.2.2.1 ∧ ∃ e, r.2.2.2.events = ls.ctx.events ++ [e] ∧ evTxid e = none := by
+  unfold uilStep at hr
+  split at hr
+  · -- old
+    split at hr
+    · split at hr
+      · simp at hr
+      · cases hr; exact ⟨⟨rfl, rfl⟩, _, rfl, rfl⟩
+    · extract_lets src st1 at hr
+      cases hr
+      refine ⟨⟨?_, ?_⟩, _, rfl, rfl⟩ <;> (simp only [st1]; split <;> rfl)
+  · -- new
+    rename_i cursed fee gallery hidden parents reinscription unbound vindicated horigin
+    by_cases hc : (if cursed = true then ls.st.cursed else ls.st.blessed) ≥ 2147483648
+    · rw [if_pos hc] at hr; simp at hr
+    · rw [if_neg hc] at hr
+      extract_lets number src st0 seq st1 satO c0 c1 at hr
+      clear_value satO
+      split at hr
+      · simp at hr
+      · simp at hr
+      · extract_lets c2 c3 c4 c5 charms st2 at hr
+        split at hr
+        · simp at hr
+        · simp at hr
+        · rename_i st3 pids pseqs hlp
+          have hf := linkParents_rsame _ _ _ _ _ _ hlp
+          extract_lets st4 ev entry st5 at hr
+          have h2 : RSame ls.st st2 := by
+            simp only [st2, st1, st0, src]
+            constructor <;> (split <;> split <;> rfl)
+          have h3 : RSame ls.st st3 := h2.trans hf
+          have h5 : RSame ls.st st5 := by
+            refine h3.trans ?_
+            simp only [st5, st4]
+            constructor <;> (split <;> rfl)
+          have hev : evTxid ev = none := rfl
+          split at hr
+          rename_i st6 homeCount heq
+          obtain rfl := Outcome.ok.inj hr
+          have h6 : RSame ls.st st6 := by
+            split at heq
+            · cases heq; exact h5
+            · split at heq <;> (cases heq; exact h5.trans ⟨rfl, rfl⟩)
+          exact ⟨h6, ev, rfl, hev⟩
+
+theorem uilFinish_rsame (sp : SatPoint) (tgt : Target) (outs : List UtxoEntry) (u : Bool) (seq : Nat) (st : State)
+    (ctx : InsCtx) (ls' : LocState) (h : uilFinish sp tgt outs (u, seq, st, ctx) = .ok ls') :
+    RSame st ls'.st ∧ ls'.ctx.events = ctx.events := by
+  unfold uilFinish at h
+  dsimp only at h
+  split at h
+  · cases h; exact ⟨⟨rfl, rfl⟩, rfl⟩
+  · split at h
+    · split at h
+      · cases h
+      · cases h; exact ⟨⟨rfl, rfl⟩, rfl⟩
+    · split at h
+      · cases h
+      · cases h; exact ⟨⟨rfl, rfl⟩, rfl⟩
+
+/-- what the inscription updater may do on the rune side: nothing, and it emits only inscription events -/
+def RLoc (ls ls' : LocState) : Prop :=
+  RSame ls.st ls'.st ∧ ∃ add, ls'.ctx.events = ls.ctx.events ++ add ∧ InsOnly add
+
+theorem RLoc.refl (ls : LocState) : RLoc ls ls := ⟨RSame.refl _, [], by simp, by simp [InsOnly]⟩
+
+theorem RLoc.trans {a b c : LocState} (h1 : RLoc a b) (h2 : RLoc b c) : RLoc a c := by
+  obtain ⟨s1, add1, e1, i1⟩ := h1
+  obtain ⟨s2, add2, e2, i2⟩ := h2
+  refine ⟨s1.trans s2, add1 ++ add2, by rw [e2, e1, List.append_assoc], ?_⟩
+  intro e he
+  rcases List.mem_append.1 he with he | he
+  · exact i1 e he
+  · exact i2 e he
+
+theorem uil_rloc (cfg : Cfg) (height time : Nat) (ir : Option (List (Nat × Nat))) (fl : Flotsam) (sp : SatPoint)
+    (opr : Bool) (target : Target) (ls ls' : LocState)
+    (h : updateInscriptionLocation cfg height time ir fl sp opr target ls = .ok ls') : RLoc ls ls' := by
+  rw [uil_eq] at h
+  split at h
+  · cases h
+  · cases h
+  · rename_i u seq st ctx hs
+    obtain ⟨h1, e, he, hn⟩ := uilStep_rsame _ _ _ _ _ _ _ _ hs
+    obtain ⟨h2, h3⟩ := uilFinish_rsame _ _ _ _ _ _ _ _ h
+    refine ⟨h1.trans h2, [e], by rw [h3]; exact he, ?_⟩
+    intro e' he'
+    simp only [List.mem_singleton] at he'
+    subst he'
+    exact hn
+
+theorem applyLocations_rloc (cfg : Cfg) (height time : Nat) (ir : Option (List (Nat × Nat)))
+    (locs : List (SatPoint × Flotsam × Bool)) (ls ls' : LocState)
+    (h : applyLocations cfg height time ir locs ls = .ok ls') : RLoc ls ls' := by
+  induction locs generalizing ls with
+  | nil => simp only [applyLocations, Outcome.ok.injEq] at h; subst h; exact RLoc.refl _
+  | cons p rest ih =>
+    obtain ⟨sp, fl, opr⟩ := p
+    simp only [applyLocations] at h
+    split at h
+    · simp at h
+    · simp at h
+    · rename_i ls1 h1
+      exact RLoc.trans (uil_rloc _ _ _ _ _ _ _ _ _ _ h1) (ih _ h)
+
+theorem applyLost_rloc (cfg : Cfg) (height time : Nat) (ir : Option (List (Nat × Nat))) (ov : Nat)
+    (fls : List Flotsam) (ls ls' : LocState)
+    (h : applyLost cfg height time ir ov fls ls = .ok ls') : RLoc ls ls' := by
+  induction fls generalizing ls with
+  | nil => simp only [applyLost, Outcome.ok.injEq] at h; subst h; exact RLoc.refl _
+  | cons fl rest ih =>
+    simp only [applyLost] at h
+    split at h
+    · simp at h
+    · simp at h
+    · rename_i ls1 h1
+      exact RLoc.trans (uil_rloc _ _ _ _ _ _ _ _ _ _ h1) (ih _ h)
+
+theorem indexInscriptions_rloc (cfg : Cfg) (height time : Nat) (tx : Tx) (inputs : List (TxIn × UtxoEntry))
+    (ir : Option (List (Nat × Nat))) (ls ls' : LocState)
+    (h : indexInscriptions cfg height time tx inputs ir ls = .ok ls') : RLoc ls ls' := by
+  unfold indexInscriptions at h
+  extract_lets jubilant totalOut hasNew src st1 isCoinbase src2 ctx1 at h
+  have h0 : RLoc ls { st := st1, ctx := ctx1, outs := ls.outs } := by
+    refine ⟨⟨?_, ?_⟩, [], ?_, by simp [InsOnly]⟩
+    · simp only [st1]; split <;> rfl
+    · simp only [st1]; split <;> rfl
+    · simp only [ctx1, src2]; split <;> simp
+  clear_value st1 ctx1
+  split at h
+  · simp at h
+  · simp at h
+  · rename_i sc hsc
+    extract_lets at h
+    split at h
+    · simp at h
+    · split at h
+      · simp at h
+      · split at h
+        rename_i locs rest outputValue hao
+        split at h
+        · simp at h
+        · simp at h
+        · rename_i ls2 h2
+          have f2 := RLoc.trans h0 (applyLocations_rloc _ _ _ _ _ _ _ h2)
+          split at h
+          · split at h
+            · simp at h
+            · simp at h
+            · rename_i ls3 h3
+              have f3 := RLoc.trans f2 (applyLost_rloc _ _ _ _ _ _ _ _ h3)
+              split at h
+              · simp at h
+              · obtain rfl := Outcome.ok.inj h
+                exact f3
+          · split at h
+            · simp at h
+            · obtain rfl := Outcome.ok.inj h
+              exact f2
+
 end Ord.Index
